@@ -1,6 +1,7 @@
 import CryoCat.Drv.Proto
 import CryoCat.Model.C08
 import CryoCat.Model.C08_Check
+import CryoCat.Model.C08_Cell
 /-! C08 driver: executes `CryoCat.C08.trace` (the defs the theorems are about) at `Float`.
 Cells travel as IEEE-754 bit patterns. -/
 namespace CryoCat.Drv.C08
@@ -66,7 +67,14 @@ def partsOf : List (Op Float) → Motl Float → List Json
   | [], _ => []
   | op :: ops, l => partsJson op l :: partsOf ops (step fill Nat.toFloat op l)
 
-/-! ### `check`: the verified checkers (`Model/C08_Check.lean`) on the REAL outputs -/
+/-! ### `check`: the verified checkers (`Model/C08_Check.lean`) on the REAL outputs
+
+Every step is decided twice when possible:
+* at `Cell` (`Model/C08_Cell.lean`: cells decoded from their bit patterns into exact rationals, NaN ↦ `missing`) by
+  `stepClausesQ` — an instance the theorems `check_step_iff_executed` … are about — whenever `keysPresent` holds
+  (no missing cell in a field the step reads with `==`, `<`, `+`); this verdict is then THE verdict (`proved: true`);
+* at `Float` by the missing-value-aware `stepClausesM` (IEEE `==`, `miss := isNaN`): the verdict when a key is missing
+  (`proved: false`), and a cross-check otherwise (`agree`). -/
 
 /-- the same cell = the same IEEE bit pattern (the harness sends one pattern for every NaN) -/
 def eqvBits (a b : Float) : Bool := a.toBits == b.toBits
@@ -91,6 +99,26 @@ def parseObs (j : Json) : Option (Obs Float × List (List String)) := do
     | none => some []
   pure ({ out := rows, parts := parts, hints := hints }, cols :: pcols)
 
+/-! decoding into `Cell` (through the bit pattern, never through a `Float` operation) -/
+def cellOf (x : Float) : Cell := decodeBits (bitsOfFloat x)
+def rowQ (p : Particle Float) : Particle Cell := Particle.ofFn (fun f => cellOf (p.get f))
+def tableQ (l : Motl Float) : Motl Cell := l.map rowQ
+def inputsQ (xs : List (Bool × Motl Float)) : List (Bool × Motl Cell) := xs.map (fun x => (x.1, tableQ x.2))
+
+def opQ : Op Float → Op Cell
+  | .subset f vs => .subset f (vs.map cellOf)
+  | .remove f vs => .remove f (vs.map cellOf)
+  | .splitPick f i => .splitPick f i
+  | .intersect f o => .intersect f (tableQ o)
+  | .dropDup dup dec asc => .dropDup dup dec asc
+  | .mergeRenumber b a s => .mergeRenumber (inputsQ b) (inputsQ a) s
+  | .mergeDropDup b a s => .mergeDropDup (inputsQ b) (inputsQ a) s
+  | .renumberParticles => .renumberParticles
+  | .renumberObjects start => .renumberObjects (cellOf start)
+
+def obsQ (o : Obs Float) : Obs Cell :=
+  { out := tableQ o.out, parts := o.parts.map tableQ, hints := o.hints.map (fun h => h.map cellOf) }
+
 /-- for `merge_and_drop_duplicates` the offsets the MODEL's loop computes from the REAL previous table are
 always offered as one more certificate (`Props/C08.lean` `check_merge_dropdup_accepts_model`: with them the
 checker accepts the documented behaviour whatever the inputs); the harness's own candidates come first -/
@@ -99,19 +127,38 @@ def withModelHint (op : Op Float) (l : Motl Float) (o : Obs Float) : Obs Float :
   | .mergeDropDup b a s => { o with hints := o.hints ++ [mergeOffsets Gen.C08.mergeDropDupShiftCmp 0 (mergeInputs fill b a s l)] }
   | _ => o
 
-/-- the observed chain with the model's certificate added at every `merge_and_drop_duplicates` (tables unchanged) -/
-def hinted : List (Op Float × Obs Float) → Motl Float → List (Op Float × Obs Float)
+/-- the same at `Cell`: the model's loop run on the decoded tables -/
+def withModelHintQ (op : Op Cell) (l : Motl Cell) (o : Obs Cell) : Obs Cell :=
+  match op with
+  | .mergeDropDup b a s => { o with hints := o.hints ++ [mergeOffsets Gen.C08.mergeDropDupShiftCmp 0 (mergeInputs fillQ b a s l)] }
+  | _ => o
+
+/-- the observed chain, decoded, with the model's certificate added at every `merge_and_drop_duplicates` -/
+def hintedQ : List (Op Float × Obs Float) → Motl Float → List (Op Cell × Obs Cell)
   | [], _ => []
-  | (op, o) :: rest, l => (op, withModelHint op l o) :: hinted rest o.out
+  | (op, o) :: rest, l => (opQ op, withModelHintQ (opQ op) (tableQ l) (obsQ o)) :: hintedQ rest o.out
+
+def failedOf (cl : List (String × Bool)) : List String := (cl.filter (fun c => !c.2)).map (·.1)
 
 def verdicts : List (Op Float × Obs Float × List (List String)) → Motl Float → List Json
   | [], _ => []
   | (op, o0, cols) :: rest, l =>
-    let o := withModelHint op l o0
     let schema := cols.all checkSchema
-    let failed := (stepClauses eqvBits fill Nat.toFloat op l o).filter (fun c => !c.2) |>.map (·.1)
-    Json.mkObj [("schema", Json.bool schema), ("ok", Json.bool (checkStep eqvBits fill Nat.toFloat op l o)),
-                ("failed", Json.arr (failed.map Json.str).toArray)] :: verdicts rest o.out
+    let clF := stepClausesM eqvBits Float.isNaN fill Nat.toFloat op l (withModelHint op l o0)
+    let opq := opQ op
+    let lq := tableQ l
+    let oq := withModelHintQ opq lq (obsQ o0)
+    let proved := keysPresent opq lq oq
+    let clQ := if proved then stepClausesQ opq lq oq else []
+    let failed := if proved then failedOf clQ else failedOf clF
+    Json.mkObj [("schema", Json.bool schema), ("ok", Json.bool failed.isEmpty), ("proved", Json.bool proved),
+                ("agree", Json.bool (!proved || (failedOf clQ).isEmpty == (failedOf clF).isEmpty)),
+                ("failed", Json.arr (failed.map Json.str).toArray)] :: verdicts rest o0.out
+
+/-- every step has all its key cells present: the whole observed history can be handed to `checkRunQ` -/
+def allPresent : List (Op Cell × Obs Cell) → Motl Cell → Bool
+  | [], _ => true
+  | (op, o) :: rest, l => keysPresent op l o && allPresent rest o.out
 
 def handle (j : Json) : Json :=
   match getStr? j "op" with
@@ -120,8 +167,11 @@ def handle (j : Json) : Json :=
           getArr? j "obs" >>= (fun a => a.toList.mapM parseObs) with
     | some base, some ops, some obs =>
       let steps := ops.zip obs
+      let chainQ := hintedQ (steps.map (fun s => (s.1, s.2.1))) base
+      let present := allPresent chainQ (tableQ base)
       Json.mkObj [("verdicts", Json.arr (verdicts steps base).toArray),
-                  ("run_ok", Json.bool (checkRun eqvBits fill Nat.toFloat (hinted (steps.map (fun s => (s.1, s.2.1))) base) base))]
+                  ("run_proved", Json.bool present),
+                  ("run_ok", Json.bool (present && checkRunQ chainQ (tableQ base)))]
     | _, _, _ => err "bad-args"
   | some "history" =>
     match getVal? j "base" >>= parseRows, getArr? j "ops" >>= (fun a => a.toList.mapM parseOp) with
